@@ -348,6 +348,8 @@ def check_c04(tier, seed):
     finally:
         TM.close()
     R.coverage["type_and_name_cases"] = ty_cases
+    from . import probes
+    probes.run(R, "C04", repo_dir)
     # createASTTypeExpr on constructed types: model (KV/GenConv.lean) vs implementation, and a read-back judgement
     from . import typeconv_stream as TCS
     ng = 4000 if tier == "quick" else 60000
